@@ -60,15 +60,64 @@ theorem C08_used_in_range {cfg : Cfg} {s : St} (w : PidWf cfg s) {id : Nat} (hu 
 
 /-- **idcalls_total**: `acquire`, `register id`, `release id` never panic — for every id value,
     including 0 and values above the maximum (finding #6 on the pinned tree: `release 0`
-    panicked).  They change nothing but the allocator (and `release` pushes one event). -/
+    panicked).  `acquire` / `register` change nothing but the allocator; what `release` changes:
+    `C08_release_abandons_exchange`. -/
 theorem C08_idcalls_total {cfg : Cfg} {s : St} (h : 1 ≤ cfg.idMax) (w : PidWf cfg s) :
     (step cfg s .acquire).s.panic = s.panic ∧
     (∀ id, (step cfg s (.register id)).s.panic = s.panic) ∧
     (∀ id, (step cfg s (.release id)).s.panic = s.panic) := by
   refine ⟨rfl, fun _ => rfl, fun id => ?_⟩
   have hw : Wf { cfg := cfg, s := s } := ⟨h, w⟩
-  show (releaseIfUsed { cfg := cfg, s := s } id).s.panic = s.panic
-  rw [releaseIfUsed_s _ hw id]
+  show (releasePacketId { cfg := cfg, s := s } id).s.panic = s.panic
+  cases hu : isUsed s id with
+  | false => rw [releasePacketId_unused hu]
+  | true => rw [releasePacketId_used hw hu]; rfl
+
+/-- **release_abandons_exchange** (fix ba1a812).  `release id` of an identifier in use: exactly one
+    event `NotifyPacketIdReleased id`; the allocator frees `id` (every other identifier as before);
+    `id` leaves the wait sets `suback` / `unsuback` / `puback` / `pubrec` (the exchange it was obtained
+    for is abandoned); the Receive-Maximum counter decreases by one if `id` was awaited by PUBACK /
+    PUBREC (`countAfterRelease`: only under a Receive Maximum, never below zero); nothing else
+    changes (`pubcomp`, the store, … are untouched).  The point of the fix: afterwards `id` is in NONE
+    of `suback` / `unsuback` / `puback` / `pubrec`, so a later `notify_closed` / SUBACK / UNSUBACK /
+    PUBACK / PUBREC cannot release it again under a new owner.
+    `release id` of an identifier not in use: no event, the state is unchanged. -/
+theorem C08_release_abandons_exchange {cfg : Cfg} {s : St} (h : 1 ≤ cfg.idMax) (w : PidWf cfg s) (id : Nat) :
+    (isUsed s id = true →
+      (step cfg s (.release id)).ev = [.released id] ∧
+      (step cfg s (.release id)).s =
+        { s with pidMan := (Alloc.deallocate s.pidMan id).2, suback := del id s.suback, unsuback := del id s.unsuback, puback := del id s.puback, pubrec := del id s.pubrec, sendCount := countAfterRelease s id } ∧
+      isUsed (step cfg s (.release id)).s id = false ∧
+      (∀ x, x ≠ id → isUsed (step cfg s (.release id)).s x = isUsed s x) ∧
+      id ∉ (step cfg s (.release id)).s.suback ∧ id ∉ (step cfg s (.release id)).s.unsuback ∧
+      id ∉ (step cfg s (.release id)).s.puback ∧ id ∉ (step cfg s (.release id)).s.pubrec) ∧
+    (isUsed s id = false →
+      (step cfg s (.release id)).ev = [] ∧ (step cfg s (.release id)).s = s) := by
+  have hw : Wf { cfg := cfg, s := s } := ⟨h, w⟩
+  constructor
+  · intro hu
+    have e : step cfg s (.release id) = releasePacketId { cfg := cfg, s := s } id := rfl
+    rw [e, releasePacketId_used hw hu]
+    obtain ⟨_, _, d3⟩ := w.w.dealloc hu
+    refine ⟨rfl, rfl, ?_, ?_, ?_, ?_, ?_, ?_⟩
+    · cases hc : isUsed ({ s with pidMan := (Alloc.deallocate s.pidMan id).2 } : St) id with
+      | false => exact hc
+      | true => exact absurd rfl ((d3 id).1 hc).2
+    · intro x hx
+      cases hc : isUsed s x with
+      | true => exact (d3 x).2 ⟨hc, hx⟩
+      | false =>
+        cases hc' : isUsed ({ s with pidMan := (Alloc.deallocate s.pidMan id).2 } : St) x with
+        | false => exact hc'
+        | true => have := ((d3 x).1 hc').1; simp only [isUsed] at hc; simp_all
+    · exact fun hm => (mem_del'.1 hm).2 rfl
+    · exact fun hm => (mem_del'.1 hm).2 rfl
+    · exact fun hm => (mem_del'.1 hm).2 rfl
+    · exact fun hm => (mem_del'.1 hm).2 rfl
+  · intro hu
+    have e : step cfg s (.release id) = releasePacketId { cfg := cfg, s := s } id := rfl
+    rw [e, releasePacketId_unused hu]
+    exact ⟨rfl, rfl⟩
 
 /-- along any operation sequence consisting of id calls only, from any well-formed state,
     there is never a panic -/
@@ -480,14 +529,20 @@ theorem C08_store_ids_distinct {cfg : Cfg} {ver : Nat} {s : St} (r : Reachable c
   | cons op ops ih => intro s h; exact ih _ (C08_store_ids_distinct_step h op)
 
 /-- legality of an application call with respect to identifiers (no condition on `recv`, none
-    on `restorePackets`): an id that is released by hand, or carried by a sent PUBLISH /
-    SUBSCRIBE / UNSUBSCRIBE, is not owned by another exchange or stored packet (if it is,
-    `release`, resp. every refusal path of the send, frees it under its owner:
-    `witness_release_owned`). -/
+    on `restorePackets`): an id carried by a sent PUBLISH / SUBSCRIBE / UNSUBSCRIBE is not owned by
+    another exchange or stored packet (if it is, every refusal path of the send frees it under its
+    owner); an id that is released by hand is not awaited by PUBCOMP and carried by no stored packet
+    (`witness_release_stored`, `witness_release_pubcomp`).  Since fix ba1a812 `release` of an id
+    awaited by SUBACK / UNSUBACK / PUBACK / PUBREC is legal — the exchange is abandoned with it
+    (`C08_release_abandons_exchange`, `witness_release_owned_fixed`); before the fix it had to be
+    excluded (`¬ owned s id`). -/
 def LegalOp (s : St) : Op → Prop
-  | .release id => ¬ owned s id
+  | .release id => id ∉ s.pubcomp ∧ storeHas id s.store = false
   | .send p => (p.kind = .publish ∨ p.kind = .subscribe ∨ p.kind = .unsubscribe) → ¬ owned s (p.pid.getD 0)
   | _ => True
+
+instance (s : St) (op : Op) : Decidable (LegalOp s op) := by
+  cases op <;> simp only [LegalOp] <;> infer_instance
 
 /-- the full inductive statement asked for -/
 def C08_PidInv_step_full : Prop :=
@@ -524,10 +579,7 @@ theorem C08_PidInv_step_partial {cfg : Cfg} {s : St} (h : 1 ≤ cfg.idMax) (w : 
   | register id =>
     exact PidInv.of_still (c := { cfg := cfg, s := s }) i ⟨rfl, rfl, rfl, rfl, rfl, rfl⟩
       (fun x _ hu => (register_grow hw id).mono x hu)
-  | release id =>
-    refine PidInv.of_still (c := { cfg := cfg, s := s }) i (releaseIfUsed_still hw id) ?_
-    intro x ho hu
-    exact releaseIfUsed_keeps hw (fun e => hl (e ▸ ho)) hu
+  | release id => exact releasePacketId_inv hw i hl.1 hl.2
   | timer k => exact same (notifyTimerFired_still _ k) (notifyTimerFired_q _ k).2.1
   | setInterval d => exact same (setPingreqSendInterval_still _ d) (setPingreqSendInterval_q _ d).2.1
   | setFlag f b => exact same (by cases f <;> exact ⟨rfl, rfl, rfl, rfl, rfl, rfl⟩) (by cases f <;> rfl)
@@ -617,10 +669,41 @@ theorem witness_foreign_version_ack :
     let s' := (step cfgC s (.recv pubackBytes (okp (puback 4 1)))).s
     PidInv s ∧ s'.store.length = 1 ∧ isUsed s' 1 = false := by decide
 
-/-- `release id` of an id owned by a wait set breaks (i): legality must exclude it. -/
-theorem witness_release_owned :
+/-- fixed by ba1a812 (was `witness_release_owned`: `release id` of an id owned by a wait set broke
+    (i) — the id stayed awaited by SUBACK while free): the id now leaves the wait set with the
+    release, the ownership invariant holds afterwards, and `notify_closed` announces nothing for it. -/
+theorem witness_release_owned_fixed :
     let s := run cfgC s0 [.send connect5, .recv connackBytes (okp (connack5 false [])), .acquire, .send sub1]
-    PidInv s ∧ s.suback = [1] ∧ ¬ PidInv (step cfgC s (.release 1)).s := by decide
+    PidInv s ∧ s.suback = [1] ∧ owned s 1 ∧ LegalOp s (.release 1) ∧
+    (step cfgC s (.release 1)).ev = [.released 1] ∧ (step cfgC s (.release 1)).s.suback = [] ∧
+    PidInv (step cfgC s (.release 1)).s ∧
+    Mon.releasedIds (step cfgC (run cfgC s [.release 1, .acquire]) .closed).ev = [] := by decide
+
+/-- the same for a QoS 1 PUBLISH in flight on a non-persistent session under Receive Maximum 10: the
+    id leaves `puback` and the credit comes back -/
+theorem witness_release_awaited_publish_fixed :
+    let s := run cfgC s0 [.send { connect5 with props := [] }, .recv connackBytes (okp (connack5 false [(pRM, 10)])),
+      .acquire, .send pub1]
+    PidInv s ∧ s.puback = [1] ∧ s.store = [] ∧ s.sendCount = 1 ∧ LegalOp s (.release 1) ∧
+    (step cfgC s (.release 1)).ev = [.released 1] ∧ (step cfgC s (.release 1)).s.puback = [] ∧
+    (step cfgC s (.release 1)).s.sendCount = 0 ∧ PidInv (step cfgC s (.release 1)).s := by decide
+
+/-- still there after ba1a812 (the fix does not touch the store): `release id` of the id of a STORED
+    PUBLISH leaves the stored packet with a free identifier — (ii) breaks: legality must exclude it. -/
+theorem witness_release_stored :
+    let s := run cfgC s0 [.send connect5, .recv connackBytes (okp (connack5 false [])), .acquire, .send pub1]
+    PidInv s ∧ s.puback = [1] ∧ s.store.map (·.1) = [1] ∧ ¬ LegalOp s (.release 1) ∧
+    (step cfgC s (.release 1)).s.puback = [] ∧ (step cfgC s (.release 1)).s.store.map (·.1) = [1] ∧
+    isUsed (step cfgC s (.release 1)).s 1 = false ∧ ¬ PidInv (step cfgC s (.release 1)).s := by decide
+
+/-- still there after ba1a812 (`pubcomp` is not among the sets the release clears): `release id` of an
+    id awaited by PUBCOMP breaks (i): legality must exclude it. -/
+theorem witness_release_pubcomp :
+    let s := run cfgC s0 [.send { connect5 with props := [] }, .recv connackBytes (okp (connack5 false [])), .acquire,
+      .send pubrel1]
+    PidInv s ∧ s.pubcomp = [1] ∧ s.store = [] ∧ ¬ LegalOp s (.release 1) ∧
+    (step cfgC s (.release 1)).s.pubcomp = [1] ∧ isUsed (step cfgC s (.release 1)).s 1 = false ∧
+    ¬ PidInv (step cfgC s (.release 1)).s := by decide
 
 /-- finding #24 (fixed): a restored export with a duplicate id, id 0 and an id above the maximum
     registers id 5 once (first entry wins: `puback`), ignores the rest, and keeps `PidInv`
@@ -725,7 +808,7 @@ example : 1 ∈ W.sB.suback ∧ isUsed W.sB 1 = true ∧ W.sB.needStore = true :
     non-empty wait sets and store -/
 example : PidInv (step W.cfgC W.sB .acquire).s ∧ simpleOp (step W.cfgC W.sB .acquire).s (.release 3) = true ∧
     LegalOp (step W.cfgC W.sB .acquire).s (.release 3) :=
-  ⟨by decide, by decide, by show ¬ owned _ 3; decide⟩
+  ⟨by decide, by decide, by show _ ∉ _ ∧ _ = false; decide⟩
 
 
 /-! ## 7. the driver monitor `C08 completion_not_released` is a theorem of the model
@@ -766,8 +849,10 @@ abbrev C08.PendInv (s : St) (pend : List (Nat × Nat)) : Prop := Pend.PInv s pen
     for version `v` has `ver = v`, and its kind is the frame's type nibble) and, between connections,
     `closed` was called (ghost empty) or the last peer's Maximum Packet Size admits a 5-byte CONNACK;
     `erase id` — `id` is in use or has no ghost entry; `restorePackets` — PUBLISH / PUBREL packets have
-    the connection's determined version.  NOTHING is required of `release` (releasing a running
-    exchange's identifier only removes ghost entries), of identifier reuse, of `closed`, timers … -/
+    the connection's determined version; `release id` — no stored packet carries `id` (since fix
+    ba1a812 the identifier leaves `puback` / `pubrec` together with its ghost entry, but a stored
+    packet would stay behind unawaited and be resent on resume: example below).  NOTHING is required
+    of identifier reuse, of `closed`, timers … -/
 abbrev C08.PendLegal (s : St) (pend : List (Nat × Nat)) (op : Op) : Prop := Pend.Legal s pend op
 
 theorem C08.pendAgree_def (s : St) (pend : List (Nat × Nat)) :
@@ -806,8 +891,8 @@ theorem C08_pend_run {cfg : Cfg} {ver : Nat} (ops : List Op)
     `id` is in use, `NotifyPacketIdReleased id`.
     Not needed: status `connected` (the monitor's `stBefore = "C"`), `p.ver = s.ver`.
     `hpid` is what lets the monitor test `q.pid = some id`; `isUsed s id` follows from `PidInv`
-    (`C08_completion_released_of_PidInv`) — it FAILS after the application released the identifier
-    of a running exchange (`example` below): the ownership contract `LegalOp`. -/
+    (`C08_completion_released_of_PidInv`) — it FAILS after the application reused the identifier
+    of a running exchange for a SUBSCRIBE (`example` below): the ownership contract `LegalOp`. -/
 theorem C08_completion_released {cfg : Cfg} {s : St} {pend : List (Nat × Nat)} {inp : List Nat}
     {parse : Nat → Nat → List Nat → Except Nat Pkt} {pb : Framing.PB} {fh : Nat} {data rest : List Nat}
     {p : Pkt} {id : Nat}
@@ -1037,25 +1122,29 @@ example :
   decide
 
 namespace W
-/-- client, persistent session: QoS 1 PUBLISH id 1 in flight and stored; the APPLICATION RELEASES
-    identifier 1 (allowed by `C08.PendLegal`, forbidden by the ownership contract `LegalOp`); the
-    connection closes and the session is resumed: the PUBLISH is sent again -/
+def suback1 : Pkt := { ver := 5, kind := .suback, pid := some 1, size := 5 }
+def subackB (id : Nat) : List Nat := [0x90, 3, 0, id, 0]
+/-- client, persistent session: QoS 1 PUBLISH id 1 in flight and stored; the APPLICATION REUSES
+    identifier 1 for a SUBSCRIBE (allowed by `C08.PendLegal`, forbidden by the ownership contract
+    `LegalOp`), whose SUBACK releases it; the connection closes and the session is resumed: the
+    PUBLISH is sent again.  (Until fix ba1a812 the witness was `release 1` in place of the SUBSCRIBE /
+    SUBACK; that call is now outside `C08.PendLegal` — `opsO` below.) -/
 def opsE : List Op := [.send connect5, .recv connackBytes (okv (connack5 false [])), .acquire, .send pub1,
-  .release 1, .closed, .send connect5, .recv connackBytes (okv (connack5 true []))]
+  .send sub1, .recv (subackB 1) (okv suback1), .closed, .send connect5, .recv connackBytes (okv (connack5 true []))]
 def sE : St := run cfgC s0 opsE
 def gE : List (Nat × Nat) := Pend.pendRun cfgC s0 [] opsE
 end W
 
 /-- **`isUsed s id` is needed — and this is where the monitor is NOT a theorem of the model under
-    `C08.PendLegal` alone**: after the run `W.opsE` (every call within `C08.PendLegal`; `release 1`
-    violates only `LegalOp`: the identifier is `owned`) the ghost is `[(1, 4)]`, `PendInv` holds, identifier 1 is awaited but
+    `C08.PendLegal` alone**: after the run `W.opsE` (every call within `C08.PendLegal`; the SUBSCRIBE
+    with identifier 1 violates only `LegalOp`: the identifier is `owned`) the ghost is `[(1, 4)]`, `PendInv` holds, identifier 1 is awaited but
     free; the PUBACK is delivered, nothing is released, and the monitor's condition holds
     (`completionViol`).  Under the ownership contract (`PidInv`) it cannot happen:
     `C08_completion_released_of_PidInv`. -/
 example :
     let op : Op := .recv (W.pubackB 1) (W.okv (W.puback 5 1))
     W.gE = [(1, 4)] ∧ C08.PendInv W.sE W.gE ∧ isUsed W.sE 1 = false ∧ ¬ PidInv W.sE ∧
-    owned (run W.cfgC W.s0 (W.opsE.take 4)) 1 ∧
+    owned (run W.cfgC W.s0 (W.opsE.take 4)) 1 ∧ ¬ LegalOp (run W.cfgC W.s0 (W.opsE.take 4)) (.send W.sub1) ∧
     Ev.recv (W.puback 5 1) ∈ (step W.cfgC W.sE op).ev ∧ Mon.releasedIds (step W.cfgC W.sE op).ev = [] ∧
     C08.completionViol (step W.cfgC W.sE op).ev (W.puback 5 1) 1 := by decide
 
@@ -1085,8 +1174,9 @@ example :
 
 /-- the run `W.opsE` is within the contract `C08.PendLegal` -/
 example : Pend.LegalRun W.cfgC W.s0 [] W.opsE :=
-  ⟨by simp only [Pend.Legal]; decide, ⟨W.parseOk_okv _, by decide⟩, trivial, by simp only [Pend.Legal]; decide, trivial,
-    trivial, by simp only [Pend.Legal]; decide, ⟨W.parseOk_okv _, by decide⟩, trivial⟩
+  ⟨by simp only [Pend.Legal]; decide, ⟨W.parseOk_okv _, by decide⟩, trivial, by simp only [Pend.Legal]; decide,
+    by simp only [Pend.Legal]; decide, ⟨W.parseOk_okv _, by decide⟩, trivial,
+    by simp only [Pend.Legal]; decide, ⟨W.parseOk_okv _, by decide⟩, trivial⟩
 
 /-! #### clauses of the contract `C08.PendLegal` (`C08_pend_step`) -/
 
@@ -1101,6 +1191,38 @@ example :
     C08.PendInv W.sE W.gE ∧ isUsed W.sE 1 = false ∧ (1, 4) ∈ W.gE ∧
     g' = [(1, 4)] ∧ s'.puback = [] ∧ ¬ PendAgree s' g' ∧
     Ev.recv (W.puback 5 1) ∉ (step W.cfgC s' op).ev ∧ Mon.hasErrorCode (step W.cfgC s' op).ev eProtocol = true := by
+  decide
+
+namespace W
+/-- the run that was `opsE` until fix ba1a812: the application RELEASES the identifier of the stored
+    QoS 1 PUBLISH, the connection closes and the session is resumed -/
+def opsO : List Op := [.send connect5, .recv connackBytes (okv (connack5 false [])), .acquire, .send pub1,
+  .release 1, .closed, .send connect5, .recv connackBytes (okv (connack5 true []))]
+end W
+
+/-- `release id` — "no stored packet carries `id`" is needed (new with fix ba1a812; before it the
+    release left `pid_puback` alone and this run kept `PendInv`): the prefix is within the contract,
+    `release 1` violates only this clause; it takes identifier 1 out of `pid_puback` and the ghost,
+    the stored PUBLISH stays (`PendInv` breaks: the stored packet is not awaited), and the resumed
+    session sends it again: the ghost holds `(1, 4)`, the model awaits nothing, the PUBACK is a
+    protocol error — the monitor fires -/
+example :
+    let s4 := run W.cfgC W.s0 (W.opsO.take 4)
+    let g4 := C08.pendRun W.cfgC W.s0 [] (W.opsO.take 4)
+    let s5 := run W.cfgC W.s0 (W.opsO.take 5)
+    let g5 := C08.pendRun W.cfgC W.s0 [] (W.opsO.take 5)
+    let s := run W.cfgC W.s0 W.opsO
+    let g := C08.pendRun W.cfgC W.s0 [] W.opsO
+    let op : Op := .recv (W.pubackB 1) (W.okv (W.puback 5 1))
+    C08.PendInv s4 g4 ∧ g4 = [(1, 4)] ∧ s4.puback = [1] ∧ storeHas 1 s4.store = true ∧
+    g5 = [] ∧ s5.puback = [] ∧ s5.store.map (·.1) = [1] ∧ PendAgree s5 g5 ∧ ¬ C08.PendInv s5 g5 ∧
+    g = [(1, 4)] ∧ s.puback = [] ∧ ¬ PendAgree s g ∧
+    Ev.recv (W.puback 5 1) ∉ (step W.cfgC s op).ev ∧ Mon.hasErrorCode (step W.cfgC s op).ev eProtocol = true := by
+  decide
+example : Pend.LegalRun W.cfgC W.s0 [] (W.opsO.take 4) ∧
+    ¬ C08.PendLegal (run W.cfgC W.s0 (W.opsO.take 4)) (C08.pendRun W.cfgC W.s0 [] (W.opsO.take 4)) (.release 1) := by
+  refine ⟨⟨by simp only [Pend.Legal]; decide, ⟨W.parseOk_okv _, by decide⟩, trivial, by simp only [Pend.Legal]; decide, trivial⟩, ?_⟩
+  show ¬ (storeHas 1 _ = false)
   decide
 
 /-- `recv` — `ParseOk`, kind: a frame of type 5 for which the parser hands out a packet of kind
